@@ -1,4 +1,4 @@
-PROPS = ["CTV.Props.C19", "CTV.Props.C19Tie", "CTV.Lemmas.Witness", "CTV.Rfc6962.Merkle"]
+PROPS = ["CTV.Props.C19", "CTV.Props.C19Tie", "CTV.Model.WitnessSpec", "CTV.Lemmas.Witness", "CTV.Rfc6962.Merkle"]
 _PKG = "./internal/witness/cmd/witness/internal/witness/"
 HARNESS = [dict(pkg=_PKG, test="TestVerifC19", race=True), dict(pkg=_PKG, test="TestVerifC19Merkle"),
            dict(pkg="./internal/witness/cmd/witness/internal/http/", test="TestVerifC19HTTP", model_args=["http"])]
